@@ -6,6 +6,7 @@ import (
 	"go/token"
 	"io"
 	"math/big"
+	"math/bits"
 	"math/rand"
 	"os"
 	"path/filepath"
@@ -498,6 +499,23 @@ func (e *cEnv) call(n *ast.CallExpr) any {
 }
 
 // ---- input generation
+// axU64: a 64-bit operand, biased towards the ends of the range and carries
+func axU64(r *rand.Rand) uint64 {
+	switch r.Intn(6) {
+	case 0:
+		return 0
+	case 1:
+		return ^uint64(0)
+	case 2:
+		return ^uint64(0) - uint64(r.Intn(3))
+	case 3:
+		return uint64(r.Intn(3))
+	case 4:
+		return 1 << 63
+	}
+	return r.Uint64()
+}
+
 func axBig(r *rand.Rand) *big.Int {
 	var v *big.Int
 	switch r.Intn(4) {
@@ -673,6 +691,33 @@ func axCases() []axCase {
 			}
 			env["x"], env["y"] = x, y
 			return func() { env["result"] = big.NewInt(int64(x.p.Cmp(y.p))) }
+		}},
+		{"(*math/big.Int).CmpAbs", func(r *rand.Rand, env map[string]any) func() {
+			x, y := axObj(axBig(r)), axObj(axBig(r))
+			switch r.Intn(4) {
+			case 0:
+				y = axObj(x.p)
+			case 1:
+				y = axObj(new(big.Int).Neg(x.p))
+			}
+			env["x"], env["y"] = x, y
+			return func() { env["result"] = big.NewInt(int64(x.p.CmpAbs(y.p))) }
+		}},
+		{"math/bits.Add64", func(r *rand.Rand, env map[string]any) func() {
+			x, y, c := axU64(r), axU64(r), uint64(r.Intn(2))
+			env["x"], env["y"], env["carry"] = new(big.Int).SetUint64(x), new(big.Int).SetUint64(y), new(big.Int).SetUint64(c)
+			return func() {
+				s, co := bits.Add64(x, y, c)
+				env["sum"], env["carryOut"] = new(big.Int).SetUint64(s), new(big.Int).SetUint64(co)
+			}
+		}},
+		{"math/bits.Sub64", func(r *rand.Rand, env map[string]any) func() {
+			x, y, c := axU64(r), axU64(r), uint64(r.Intn(2))
+			env["x"], env["y"], env["borrow"] = new(big.Int).SetUint64(x), new(big.Int).SetUint64(y), new(big.Int).SetUint64(c)
+			return func() {
+				d, bo := bits.Sub64(x, y, c)
+				env["diff"], env["borrowOut"] = new(big.Int).SetUint64(d), new(big.Int).SetUint64(bo)
+			}
 		}},
 		q("Sign", func(x *big.Int) any { return big.NewInt(int64(x.Sign())) }),
 		q("IsInt64", func(x *big.Int) any { return x.IsInt64() }),
@@ -1033,7 +1078,7 @@ func runAxioms(cs *ContractSet, n int, seed int64, out io.Writer) (map[string]an
 	var untested []string
 	for _, k := range cs.Order {
 		c := cs.Funcs[k]
-		if c.Assumed && !covered[k] && (strings.Contains(k, "math/big") || strings.Contains(k, "onflow/fixed-point")) {
+		if c.Assumed && !covered[k] && (strings.Contains(k, "math/big") || strings.Contains(k, "math/bits") || strings.Contains(k, "onflow/fixed-point")) {
 			untested = append(untested, k)
 		}
 	}
